@@ -315,7 +315,7 @@ def run(ctx):
                             "flags": longest.flags[:4], "drained": drained})
 
     imports = ("Engine.SlgTable",)
-    mcodes, mfail = logic.coq_codes(ctx.work, "model", {}, mexprs, shard=max(40, len(mexprs) // 16 + 1), imports=imports)
+    mcodes, mfail = logic.coq_codes(ctx.work, "model", {}, mexprs, shard=max(60, len(mexprs) // 4 + 1), imports=imports)
     if mfail:
         raise core.CheckFailure("coq evaluation failed: %s" % (mfail[0],))
     for (desc, k), c in zip(mmeta, mcodes):
@@ -326,7 +326,7 @@ def run(ctx):
                       "broken": "SlgTable.solve_multiple (model of solve_multiple/peek_answer/push_answer) disagrees with the real run although the observable property holds"})
             ctx.violation(d, no_input=True)
             break
-    codes, fail = logic.coq_codes(ctx.work, "enum", defs, exprs, shard=max(8, len(exprs) // 32 + 1), imports=imports, timeout=1200)
+    codes, fail = logic.coq_codes(ctx.work, "enum", defs, exprs, shard=max(8, len(exprs) // 14 + 1), imports=imports, timeout=1200)
     if fail:
         raise core.CheckFailure("coq evaluation failed: %s" % (fail[0],))
     verdicts = collections.Counter()
